@@ -89,6 +89,24 @@ fn gen_case(t: &mut Tape) -> E2Case {
         arms.push((arm, into_v));
     }
     let lit_text = |v: i64| -> String { if strs { format!("\"{}\"", ALPHABET[v as usize]) } else { format!("{}", v) } };
+    // optional second primitive counterpart (i64, From only): some variants carry a literal / pattern dedicated to it
+    let second = !strs && !has_catch_all && t.chance(1, 3);
+    let mut arms2: Vec<Option<Arm>> = vec![None; nv];
+    if second {
+        labels.push("second-counterpart".into());
+        for vi in 0..nv {
+            if t.chance(1, 2) {
+                arms2[vi] = Some(match &arms[vi].0 {
+                    Arm::Lit(_) => Arm::Lit(1000 + 7 * vi as i64 + t.below(5) as i64),
+                    _ => {
+                        let a = 2000 + 100 * vi as i64;
+                        Arm::Range(a, a + 1 + t.below(40) as i64)
+                    }
+                });
+                labels.push("dedicated-literal-or-pattern".into());
+            }
+        }
+    }
     // default case
     let default_variant = t.below(nv);
     let default_is_err = fallible && t.coin();
@@ -109,6 +127,9 @@ fn gen_case(t: &mut Tape) -> E2Case {
         let (ks, _) = trait_name_cells(n).unwrap();
         let is_from = ks.iter().any(|k| *k == FO || *k == FR);
         let _ = write!(type_attrs, "#[{}({}{}{})]\n", n, prim, if fallible { ", E" } else { "" }, if with_default && is_from { format!("| _ => {}", default_dsl) } else { String::new() });
+    }
+    if second {
+        let _ = write!(type_attrs, "#[{}(i64{}| _ => {})]\n", if fallible { "try_from_owned" } else { "from_owned" }, if fallible { ", E" } else { "" }, default_dsl);
     }
     let mut variants_attr = String::new();
     let mut variants_plain = String::new();
@@ -134,6 +155,19 @@ fn gen_case(t: &mut Tape) -> E2Case {
             Arm::CatchAll => {
                 labels.push("pattern:catch-all".into());
                 a.push_str("#[pattern(_)] ");
+            }
+        }
+        if let Some(a2) = &arms2[vi] {
+            let ded = match a2 {
+                Arm::Lit(v) => format!("#[literal(i64| {})] ", v),
+                Arm::Range(x, y) => format!("#[pattern(i64| {}..={})] ", x, y),
+                _ => String::new(),
+            };
+            // default written first is the order a first-match lookup gets wrong
+            if t.chance(2, 3) {
+                a.push_str(&ded);
+            } else {
+                a = format!("{}{}", ded, a);
             }
         }
         if has_into {
@@ -189,6 +223,40 @@ fn gen_case(t: &mut Tape) -> E2Case {
     }
     let default_model = if with_default { if default_is_err { "Some(Err(E(9)))".to_string() } else { format!("Some(Ok({}))", default_dsl) } } else { "None".to_string() };
     let _ = write!(h, "pub fn ref_from(v: {}) -> Option<::core::result::Result<S, E>> {{ {} {} }}\n", prim, model, default_model);
+    if second {
+        let mut model2 = String::new();
+        for (vi, (arm, _)) in arms.iter().enumerate() {
+            let eff = arms2[vi].as_ref().unwrap_or(arm);
+            let cond = match eff {
+                Arm::Lit(v) => format!("v == {}", v),
+                Arm::Range(a, b) => format!("({}..={}).contains(&v)", a, b),
+                Arm::From(a) => format!("v >= {}", a),
+                Arm::Alt(vs) => vs.iter().map(|x| format!("v == {}", x)).collect::<Vec<_>>().join(" || "),
+                Arm::CatchAll => "true".to_string(),
+            };
+            let _ = write!(model2, "if {} {{ return Ok(S::V{}); }} ", cond, vi);
+        }
+        let d2 = if default_is_err { "Err(E(9))".to_string() } else { format!("Ok({})", default_dsl) };
+        let _ = write!(h, "pub fn ref_from2(v: i64) -> ::core::result::Result<S, E> {{ {} {} }}\n", model2, d2);
+        let mut pts: Vec<i64> = vec![0, -1, 1, i64::MIN, i64::MAX];
+        for (vi, (arm, _)) in arms.iter().enumerate() {
+            for a in [Some(arm), arms2[vi].as_ref()].into_iter().flatten() {
+                let b: Vec<i64> = match a {
+                    Arm::Lit(v) => vec![*v],
+                    Arm::Range(x, y) => vec![*x, *y],
+                    Arm::From(x) => vec![*x],
+                    Arm::Alt(v) => v.clone(),
+                    Arm::CatchAll => vec![],
+                };
+                for x in b {
+                    pts.extend([x - 1, x, x + 1]);
+                }
+            }
+        }
+        pts.sort();
+        pts.dedup();
+        let _ = write!(h, "pub fn values2() -> Vec<i64> {{ vec![{}] }}\n", pts.iter().map(|x| format!("{}i64", x)).collect::<Vec<_>>().join(", "));
+    }
     let mut into_arms = String::new();
     for (vi, (arm, into_v)) in arms.iter().enumerate() {
         match arm {
@@ -284,6 +352,10 @@ fn gen_case(t: &mut Tape) -> E2Case {
             conv(k),
             basic_name(k, fallible)
         );
+    }
+    if second {
+        let conv2 = if fallible { "<S as ::core::convert::TryFrom<i64>>::try_from(v)" } else { "Ok::<S, E>(<S as ::core::convert::From<i64>>::from(v))" };
+        let _ = write!(r, "    {{ let mut bad = None; let vals = values2(); for v in vals.iter().cloned() {{ let want = ref_from2(v); let got = {}; if got != want && bad.is_none() {{ bad = Some((format!(\"{{:?}}\", v), got, want)); }} }} report(out, \"i64:from_owned\", vals.len(), bad); }}\n", conv2);
     }
     for k in [OI, RI] {
         if !cells[k] {
